@@ -716,7 +716,8 @@ func TestC12Crash(t *testing.T) {
 // This reaches crash points between any two file-system effects (between manifest removal and layer removal in
 // delete, inside NewLayer, between create and write of a manifest), which injector (A) cannot.
 
-var c12Syscalls = []string{"openat", "write", "pwrite64", "rename", "renameat", "renameat2", "unlink", "unlinkat", "mkdir", "mkdirat", "chmod", "fchmod", "fchmodat", "ftruncate", "close"}
+var c12Syscalls = []string{"openat", "write", "pwrite64", "rename", "renameat", "renameat2", "unlink", "unlinkat", "mkdir", "mkdirat", "chmod", "fchmod", "fchmodat", "ftruncate", "close",
+	"copy_file_range", "sendfile"} // io.Copy between two files (CopyModel) is one of these, not a write
 
 type c12SysCase struct {
 	NoPrune bool    `json:"noprune,omitempty"`
